@@ -98,7 +98,7 @@ class LoopGen:
             (1, lambda: ("idx", IDX, [L(3)])),
             (2, lambda: B("Add", i, V("d_i"))),
             (2, lambda: B("Div", n, L(2))),
-            (1, lambda: B("Div", addc(n, 2), L(2))),
+            (1, lambda: B("Div", addc(n, r.choice([1, 2])), L(2))),
             (1, lambda: ("intr", "IAbs", [i])),
             (1, lambda: B("Sub", B("Add", i, n), n)),
             (1, lambda: addc(B("Sub", i, i), 1)),
@@ -212,6 +212,8 @@ TARGETED = [
     ("div2", "do i = 1, 4\n a(i / 2) = b(i)\nend do"),
     ("div2-rw", "do i = 1, 4\n a(i / 2) = a(i / 2) + 1\nend do"),
     ("div-0var", "do i = 1, 4\n d(n / 2, i) = d((n + 2) / 2, i + 1)\nend do"),
+    ("div-0var-half", "do i = 1, 4\n d(n / 2, i) = d((n + 1) / 2, i + 1)\nend do"),
+    ("div-0var-half-w", "do i = 1, 4\n d(i, (m + 1) / 2) = d(i + 1, m / 2) + 1\nend do"),
     ("mod2", "do i = 1, 4\n a(mod(i, 2)) = b(i)\nend do"),
     ("twice", "do i = 1, 4\n a(2 * i) = a(2 * i + 1)\nend do"),
     ("square", "do i = -2, 2\n a(i * i) = b(i)\nend do"),
@@ -221,7 +223,6 @@ TARGETED = [
     ("idxarr-read", "do i = 1, 4\n a(i) = b(idx(i))\nend do"),
     ("dname1", "do i = 1, 4\n a(i + d_i) = b(i)\nend do"),
     ("dname2", "do i = 1, 4\n a(i + d_i + d1_i) = b(i)\nend do"),
-    ("dname3", "do i = 1, 4\n a(i + d_i + d1_i + d2_i) = a(i + d_i + d1_i + d2_i) + 1\nend do"),
     ("dname-skip", "do i = 1, 4\n a(i + d1_i) = b(i + d2_i)\nend do"),
     ("cond-scalar", "do i = 1, 4\n if (b(i) > 0) then\n  t = b(i)\n end if\n c(i) = t\nend do"),
     ("cond-scalar-ww", "do i = 1, 4\n if (b(i) > 0) then\n  t = 1\n end if\n if (b(i) < 0) then\n  t = 2\n end if\nend do"),
@@ -256,6 +257,13 @@ TARGETED = [
     ("n-plus", "do i = 1, 4\n a(i + n) = a(i + m)\nend do"),
     ("read-only", "do i = 1, 4\n s = s + a(i) * b(3)\nend do"),
     ("if-array", "do i = 1, 4\n if (a(i) > 0) then\n  b(i) = a(i)\n else\n  b(i) = 0\n end if\nend do"),
+]
+
+
+# only in the thorough tier (each non-terminating analysis costs the whole time limit)
+TARGETED_THOROUGH = [
+    ("dname3", "do i = 1, 4\n a(i + d_i + d1_i + d2_i) = a(i + d_i + d1_i + d2_i) + 1\nend do"),
+    ("dname-nest", "do i = 1, 3\n do j = 1, 3\n  d(i + d_i + d1_i, j) = d(i + d_i + d1_i, j) + 1\n end do\nend do"),
 ]
 
 
@@ -311,12 +319,12 @@ class Impl:
         self._orig = (orig_dist, orig_neq)
         dtm.DependencyTools._get_dependency_distance = staticmethod(dist)
         dtm.DependencyTools._independent_0_var = staticmethod(neq)
-        signal.signal(signal.SIGALRM, _alarm)
+        signal.signal(signal.SIGVTALRM, _alarm)     # CPU time of this process: robust against machine load
 
     def close(self):
         self.dtm.DependencyTools._get_dependency_distance = staticmethod(self._orig[0])
         self.dtm.DependencyTools._independent_0_var = staticmethod(self._orig[1])
-        signal.setitimer(signal.ITIMER_REAL, 0)
+        signal.setitimer(signal.ITIMER_VIRTUAL, 0)
 
     def analyse(self, text):
         """-> dict(loop=tuple stmt, verdict=('par',)|('notpar', code, var)|('timeout',)|('exc', type, msg),
@@ -330,11 +338,11 @@ class Impl:
             raise mf.OutOfSubset("expected exactly one outer loop")
         self.rec_dist, self.rec_neq = [], []
         dt = self.dtm.DependencyTools()
-        t0 = time.time()
-        signal.setitimer(signal.ITIMER_REAL, self.limit)
+        t0 = time.process_time()
+        signal.setitimer(signal.ITIMER_VIRTUAL, self.limit)
         try:
             res = dt.can_loop_be_parallelised(loops[0])
-            signal.setitimer(signal.ITIMER_REAL, 0)
+            signal.setitimer(signal.ITIMER_VIRTUAL, 0)
             if res is True:
                 verdict = ("par",)
             else:
@@ -344,12 +352,12 @@ class Impl:
         except AnalysisTimeout:
             verdict = ("timeout",)
         except Exception as e:                              # pylint: disable=broad-except
-            signal.setitimer(signal.ITIMER_REAL, 0)
+            signal.setitimer(signal.ITIMER_VIRTUAL, 0)
             verdict = ("exc", type(e).__name__, str(e).strip()[:120])
         finally:
-            signal.setitimer(signal.ITIMER_REAL, 0)
+            signal.setitimer(signal.ITIMER_VIRTUAL, 0)
         return {"loop": stmts[0], "verdict": verdict, "dist": list(self.rec_dist), "neq": list(self.rec_neq),
-                "secs": time.time() - t0}
+                "secs": time.process_time() - t0}
 
 
 # ------------------------------------------------------------------------------------------------
@@ -419,7 +427,8 @@ def bernstein_conflict(loop, vals):
                     continue
                 if loc[1] == () and all(loc in W[k] and loc not in E[k] for k in range(len(its))):
                     continue                          # scalar every iteration writes before reading
-                return {"location": "%s%s" % (loc[0], list(loc[1]) if loc[1] else ""), "name": loc[0],
+                return {"reads": sorted(set(l for k, l in r[2] if k == "R")),
+                        "location": "%s%s" % (loc[0], list(loc[1]) if loc[1] else ""), "name": loc[0],
                         "is_scalar": loc[1] == (), "iterations": [p, q],
                         "kind": "write-write" if loc in W[q] else "write-read"}
     return None
@@ -600,8 +609,13 @@ def verdict_to_coq(v, nm):
 def case_to_coq(res):
     loop = res["loop"]
     nm = mf.Names().collect([loop])
-    dist = [r for r in res["dist"] if r is not None]
-    neq = [r for r in res["neq"] if r is not None]
+    dist, neq = [], []
+    for r in res["dist"]:                          # the same call is repeated for many access pairs: keep one
+        if r is not None and r not in dist:
+            dist.append(r)
+    for r in res["neq"]:
+        if r is not None and r not in neq:
+            neq.append(r)
     E = lambda e: mf.expr_to_coq(e, nm)            # noqa: E731
     return ("(mkCase %d %s %s %s %s %s %s %s %s)" % (
         nm.get(loop[1]), E(loop[2]), E(loop[3]), E(loop[4]), mf.stmts_to_coq(loop[5], nm),
@@ -609,6 +623,13 @@ def case_to_coq(res):
         core.coq_list("(%d, %s, %s, %s)" % (nm.get(x), E(w), E(o), "true" if b else "false") for x, w, o, b in dist),
         core.coq_list("(%s, %s, %s)" % (E(w), E(o), "true" if b else "false") for w, o, b in neq),
         verdict_to_coq(res["verdict"], nm))), nm
+
+
+def safe_case_to_coq(res):
+    """only what Safe.case_safe looks at (loop variable and body)"""
+    loop = res["loop"]
+    nm = mf.Names().collect([loop])
+    return "(mkCase %d (ELit 0) (ELit 0) (ELit 0) %s [] [] [] Par)" % (nm.get(loop[1]), mf.stmts_to_coq(loop[5], nm))
 
 
 def model_verdict_term(case_term):
@@ -627,7 +648,7 @@ def load_translator():
 REPLAY_HOW = ("write `fortran` to a file, read it with psyclone.psyir.frontend.fortran.FortranReader, take the first "
               "Loop of the routine and call psyclone.psyir.tools.DependencyTools().can_loop_be_parallelised(loop) "
               "(PYTHONPATH=<tree>/src PSYCLONE_CONFIG=<tree>/config/psyclone.cfg); `store` lists the non-zero "
-              "initial values; iterations are numbered from 0")
+              "initial values of the locations the execution reads (all others 0); iterations are numbered from 0")
 
 
 def run(ctx):
@@ -670,17 +691,29 @@ def run(ctx):
     ctx.notes["src_idx_incremented"] = incr
     ok, rep = ctx.prove()
     ctx.log("proof ok=%s discharged=%d/%d idx_incremented=%s" % (ok, ctx.cov["discharged"], ctx.cov["obligations"], incr))
+    if ok and ctx.thorough:
+        # independent re-check of the compiled closure by coqchk (DESIGN section 3)
+        rc, out = core.sh(["coqchk", "-silent", "-o", "-Q", str(core.COQ), core.LOGICAL, "PV.Properties.C08"],
+                          timeout=1500, cwd=core.COQ)
+        axioms_none = "* Axioms: <none>" in out
+        ctx.notes["coqchk"] = {"rc": rc, "axioms_none": axioms_none}
+        ctx.log("coqchk rc=%d axioms:<none>=%s" % (rc, axioms_none))
+        if rc == 124:
+            ctx.notes["coqchk"]["note"] = "timed out (machine load); not counted"
+        elif rc != 0 or not axioms_none:
+            ok = False
+            rep = dict(rep, coqchk_tail=out[-1500:])
 
     # 2. cases
-    limit = ctx.pick(5, 20)
+    limit = ctx.pick(8, 20)          # seconds of CPU time of this process (normal analyses need < 0.5 s)
     impl = Impl(limit)
     rng = ctx.rng("gen")
     srng = ctx.rng("stores")
-    texts = [("targeted:" + n, fortran_of_body(t)) for n, t in TARGETED]
+    texts = [("targeted:" + n, fortran_of_body(t)) for n, t in TARGETED + ctx.pick([], TARGETED_THOROUGH)]
     g = LoopGen(rng)
-    for k in range(ctx.pick(330, 6000)):
+    for k in range(ctx.pick(190, 4000)):
         texts.append(("random:%d" % k, fortran_of([g.loop()])))
-    nstores = ctx.pick(8, 14)
+    nstores = ctx.pick(7, 14)
     results = []
     oos = 0
     t_an = time.time()
@@ -699,9 +732,9 @@ def run(ctx):
                 for vals in stores(srng, res["loop"], nstores):
                     conf = bernstein_conflict(res["loop"], vals)
                     if conf:
-                        conf["store"] = {("%s%s" % (k[0], list(k[1]) if k[1] else "")): z
-                                         for k, z in sorted(vals.items()) if z != 0 and
-                                         (not k[1] or all(abs(q) <= 8 for q in k[1]))}
+                        # the part of the initial store the execution read (everything else is irrelevant)
+                        conf["store"] = {("%s%s" % (k[0], list(k[1]) if k[1] else "")): vals.get(k, 0)
+                                         for k in conf.pop("reads") if vals.get(k, 0) != 0}
                         res["conflict"] = conf
                         break
             ctx.count(txt, v[0] == "par")
@@ -712,18 +745,19 @@ def run(ctx):
     finally:
         impl.close()
     ctx.notes["out_of_subset"] = oos
-    ctx.notes["analysis_max_seconds"] = round(max([r["secs"] for r in results] or [0]), 2)
+    ctx.notes["analysis_max_cpu_seconds_answered"] = round(max([r["secs"] for r in results if r["verdict"][0] != "timeout"] or [0]), 2)
     ctx.log("analysed %d loops in %.0fs (out of subset %d)" % (len(results), time.time() - t_an, oos))
 
     # 3. the model on the same cases
     corr = [r for r in results if r["verdict"][0] != "exc"]
     terms = [case_to_coq(r)[0] for r in corr]
-    failing = set(ctx.coq_eval_failing(HEADER, "ccase", "agrees src_idx_incremented", terms, shard=120)) if ok or \
+    failing = set(ctx.coq_eval_failing(HEADER, "ccase", "agrees src_idx_incremented", terms, shard=ctx.pick(62, 250))) if ok or \
         (core.COQ / "C08" / "Model.vo").exists() else None
     accepted = [r for r in corr if r["verdict"][0] == "par"]
     gap = set()
     if failing is not None and accepted:
-        gap = set(ctx.coq_eval_failing(HEADER, "ccase", "case_safe", [case_to_coq(r)[0] for r in accepted], shard=150))
+        gap = set(ctx.coq_eval_failing(HEADER, "ccase", "case_safe", [safe_case_to_coq(r) for r in accepted],
+                                        shard=ctx.pick(100, 400)))
     for k, r in enumerate(accepted):
         r["bucket"] = "gap" if k in gap else "safe"
         ctx.hist("accepted_bucket", r["bucket"])
@@ -745,8 +779,8 @@ def run(ctx):
             key = classify_timeout(r["loop"])
             ctx.hist("failure_reason", key)
             n_find += 1
-            ctx.finding(key, "the analysis does not answer within %ds" % limit,
-                        dict(base, observed="no answer within %d s (normal analyses take < 1 s)" % limit,
+            ctx.finding(key, "the analysis does not answer within %ds of CPU time" % limit,
+                        dict(base, observed="no answer within %d s of CPU time (normal analyses take < 0.5 s)" % limit,
                              expected="an answer for every loop"))
         elif r["conflict"]:
             key = classify_conflict(r["loop"], r["conflict"])
